@@ -599,6 +599,41 @@ def _mk_mut_wrapper(cname, meth, f):
 GAPS = (4, 12, 40, 120, 400, 1500)
 
 
+def _module_codes(mod):
+    """Code objects of all functions and methods defined in ``mod`` (nested
+    functions included), in a deterministic order."""
+    import types
+    found = {}
+
+    def add_code(code):
+        if code in found.values():
+            return
+        found[(code.co_filename, code.co_firstlineno, code.co_qualname)] = code
+        for c in code.co_consts:
+            if isinstance(c, types.CodeType):
+                add_code(c)
+
+    def add_obj(f):
+        f = getattr(f, '__wrapped__', f)
+        f = getattr(f, '__func__', f)
+        code = getattr(f, '__code__', None)
+        fn = getattr(mod, '__file__', None)
+        if code is not None and fn and os.path.abspath(
+                code.co_filename) == os.path.abspath(fn):
+            add_code(code)
+
+    for name, obj in sorted(vars(mod).items()):
+        if isinstance(obj, type) and obj.__module__ == mod.__name__:
+            for n2, o2 in sorted(vars(obj).items()):
+                if isinstance(o2, (staticmethod, classmethod)):
+                    o2 = o2.__func__
+                if callable(o2):
+                    add_obj(o2)
+        elif callable(obj):
+            add_obj(obj)
+    return [found[k] for k in sorted(found)]
+
+
 def _resolve_codes():
     m = M
     sched_codes = []
@@ -617,22 +652,17 @@ def _resolve_codes():
         if code is not None:
             lst.append(code)
 
-    tg = 'TaskGenerator'
-    for n in ('__next__', '_TaskGenerator__get_substs', 'update', 'stop',
-              'start', 'reset', '__init__'):
-        add(sched_codes, m.ddmin, f'{tg}.{n}')
-    for n in ('_check_par', '_check_seq', '_worker', '_apply_mutator', '_simp'):
-        add(sched_codes, m.ddmin, n)
-    for n in ('Producer.generate', 'Producer._Producer__mutate_node',
-              'Producer.__init__', 'Consumer.check'):
-        add(sched_codes, m.hier, n)
-    add(sched_codes, m.hier, 'reduce')
-    add(sched_codes, m.checker, 'execute')
-    add(sched_codes, m.checker, 'check')
-    add(sched_codes, m.checker, 'check_exprs')
-    for n in ('write_smtlib_to_file', 'write_smtlib', '__write_smtlib',
-              '__write_smtlib_pretty', 'write_smtlib_for_checking'):
-        add(io_codes, m.nodeio, n)
+    # every function defined in the strategy modules and in the checker is
+    # pre-emptible line by line; every function of nodeio is a candidate for
+    # the rewrite boundaries (they only fire while main rewrites the output
+    # file).  By module, not by name: a renamed or split function stays
+    # instrumented.
+    for mod in (m.ddmin, m.hier, m.checker):
+        sched_codes.extend(_module_codes(mod))
+    io_codes.extend(_module_codes(m.nodeio))
+    for n in ('_worker', 'reduce'):
+        if not hasattr(m.ddmin, n):
+            MISSING.append('code:ddmin.' + n)
     return sched_codes, io_codes
 
 
